@@ -454,7 +454,7 @@ http_req_sec_chk(const uint8_t *http_hdr, size_t hdr_size, uint32_t method_code)
 int
 http_parse_req_line(const uint8_t *http_hdr, size_t hdr_size,
     http_req_line_data_p req_data) {
-	const uint8_t *line, *ptm, *pspace;
+	const uint8_t *line, *ptm, *pspace, *pquery;
 	size_t line_size, tm;
 
 	if (NULL == http_hdr || 10 >= hdr_size || NULL == req_data)
@@ -503,6 +503,12 @@ http_parse_req_line(const uint8_t *http_hdr, size_t hdr_size,
 			req_data->host = (ptm + 3);
 			ptm = mem_chr_ptr(req_data->host,
 			    req_data->uri, req_data->uri_size, '/');
+			/* RFC 3986 3.2: '?' terminates the authority too. */
+			pquery = mem_chr_ptr(req_data->host,
+			    req_data->uri, req_data->uri_size, '?');
+			if (NULL != pquery && (NULL == ptm || pquery < ptm)) {
+				ptm = pquery;
+			}
 			if (NULL == ptm) {
 				ptm = pspace; // = (req_data->uri + req_data->uri_size);
 			}
@@ -512,7 +518,7 @@ http_parse_req_line(const uint8_t *http_hdr, size_t hdr_size,
 		}
 		/* abs_path */
 		/* Skip slash~s from head. */
-		while (ptm < (pspace - 1) && '/' == ptm[1]) {
+		while ('/' == ptm[0] && ptm < (pspace - 1) && '/' == ptm[1]) {
 			ptm ++;
 		}
 		req_data->abs_path = ptm;
